@@ -15,6 +15,7 @@ func init() {
 	register("C05", "R3", 3, "scheme tables agree: every scheme a PAC result can still produce after pacProxy's rejections is one that the CONNECT dispatcher handles and that net/http's Transport takes for what it says (http, https, socks5); anything else would be used as a plain HTTP proxy", c05r3)
 	register("C05", "R4", 4, "PAC result handling: resolver and parse errors are returned unchanged; only the first ';' entry is parsed; DIRECT/empty mean no proxy; an entry whose host:port cannot be split is rejected; an unknown keyword is DIRECT", c05r4)
 	register("C05", "R5", 4, "connect-to: the first matching rule decides (the function returns from inside the loop), empty source fields match anything, empty destination fields keep the original; the dialler applies the redirect before it dials and dials the rewritten address", c05r5)
+	register("C05", "R8", 1, "with no upstream configured the origin is contacted directly: the transport forwarder builds has no proxy function of its own (Proxy is nil in a freshly built http.Transport, or explicitly set to nil) - a transport derived from http.DefaultTransport would keep ProxyFromEnvironment, and martian adopts the transport's function when it has none", c05r8)
 	register("C05", "R6", 3, "who may dial: sockets are opened only by the forwarder dialler, the default dialler of a bare martian proxy, the readiness probe and the HTTP/2 relay, which is unreachable because nothing installs an H2 configuration", c05r6)
 }
 
@@ -449,6 +450,40 @@ func c05r5(r *R) {
 		}
 	}
 	r.check(len(ps) > 0 && len(why) == 0, "Dialer.DialContext#redirect-applied", dc.Pos(), "redirect (when configured) applied before dialling, rewritten address dialled", strings.Join(dedupStrings(why), "; "))
+	// ... and exactly once per dial: the redirect function is invoked only there, outside any loop, on the caller's address
+	// (a second application - per retry, per fallback - maps an already redirected address through the rule list again)
+	nrd := 0
+	for _, fn := range r.modFuncs() {
+		eachInstr(fn, func(ins ssa.Instruction) {
+			c, ok := ins.(ssa.CallInstruction)
+			if !ok || c.Common().IsInvoke() || staticCallee(c.Common()) != nil {
+				return
+			}
+			fv := funcFieldOf(c.Common().Value)
+			if fv == nil || fv.Name() != "rd" || fv.Pkg() == nil || fv.Pkg().Path() != modPath {
+				return
+			}
+			nrd++
+			var why []string
+			if fname(fn) != "(*forwarder.Dialer).DialContext" {
+				why = append(why, "invoked in "+fname(fn))
+			}
+			if blockInLoop(ins.Block()) {
+				why = append(why, "invoked inside a loop (once per attempt)")
+			}
+			isParam := func(v ssa.Value, i int) bool {
+				d := describe(v)
+				return i < len(fn.Params) && (d == fmt.Sprintf("$%d", i) || d == "local:"+fn.Params[i].Name()) // a parameter captured by a literal is spilled into a local of the same name
+			}
+			if a := c.Common().Args; len(a) != 2 || !isParam(a[0], 2) || !isParam(a[1], 3) {
+				why = append(why, "not applied to the network and address the caller asked for (applied to "+describe(a[0])+", "+describe(a[1])+")")
+			}
+			r.check(len(why) == 0, fname(fn)+"#redirect-once", c.Pos(), "the redirect is applied once, to the requested address, before the dial loop", "connect-to redirect: "+strings.Join(why, "; ")+" - a retried or repeated application rewrites an address that was already rewritten")
+		})
+	}
+	if nrd == 0 {
+		r.bad("Dialer#redirect-once", dc.Pos(), "the configured redirect function is never invoked")
+	}
 	// installed iff rules were given
 	nd := r.fn(".", "NewDialer")
 	found := false
@@ -514,5 +549,56 @@ func c05r6(r *R) {
 		if cnt == 0 {
 			r.ok("mitm.SetH2Config#no-production-caller", sh.Pos(), "no production caller: the h2 relay's own dial is dead code in the forwarder binary")
 		}
+	}
+}
+
+// blockInLoop reports whether b can reach itself.
+func blockInLoop(b *ssa.BasicBlock) bool {
+	seen := map[*ssa.BasicBlock]bool{}
+	var walk func(x *ssa.BasicBlock) bool
+	walk = func(x *ssa.BasicBlock) bool {
+		for _, s := range x.Succs {
+			if s == b {
+				return true
+			}
+			if !seen[s] {
+				seen[s] = true
+				if walk(s) {
+					return true
+				}
+			}
+		}
+		return false
+	}
+	return walk(b)
+}
+
+func c05r8(r *R) {
+	nt := r.fn(".", "NewHTTPTransport")
+	ps, complete := enumPaths(nt, 512, 1)
+	if !complete {
+		r.undecided("NewHTTPTransport#paths", nt.Pos(), "too many paths")
+		return
+	}
+	n := 0
+	for _, p := range ps {
+		if len(p.Ret) != 2 || p.Ret[1] != "nil" {
+			continue
+		}
+		n++
+		base := p.Ret[0]
+		px, set := p.Mem[base+".Proxy"]
+		fresh := strings.HasPrefix(base, "local:complit#") || strings.HasPrefix(base, "local:new#")
+		switch {
+		case fresh && (!set || px == "nil"):
+			r.ok(fmt.Sprintf("NewHTTPTransport#proxy-nil@%d", n), p.pos(), "a freshly built transport without a proxy function")
+		case !fresh && set && px == "nil":
+			r.ok(fmt.Sprintf("NewHTTPTransport#proxy-nil@%d", n), p.pos(), "Proxy explicitly cleared")
+		default:
+			r.bad(fmt.Sprintf("NewHTTPTransport#proxy-nil@%d", n), p.pos(), "the transport is "+shorten(base, 90)+" with Proxy="+px+": unless it is a fresh http.Transport or Proxy is set to nil, it keeps a proxy function (http.DefaultTransport uses the environment's HTTP_PROXY), which decides the route when no upstream is configured")
+		}
+	}
+	if n == 0 {
+		r.bad("NewHTTPTransport#proxy-nil", nt.Pos(), "no successful return found")
 	}
 }
